@@ -118,4 +118,41 @@ theorem dt_zero (x0 : Fin 10 → ℝ) (a w : Fin 3 → ℝ) (g : ℝ) (i : Fin 1
     rdd2.strapdown_ins_propagate.x1_vec x0 a w g 0 i = x0 i := by
   fin_cases i <;> simp [cas_defs, cas_real, sq_cos_x_zero, sq_sin_x_over_x_zero] <;> (try ring1)
 
+
+/-- **composition**: propagating dt₁ and then dt₂ (same constant specific force and angular rate) equals propagating
+    dt₁ + dt₂ — position and velocity exactly, attitude as a rotation — whenever the three steps are on the closed-form cell -/
+theorem semigroup (x0 : Fin 10 → ℝ) (a w : Fin 3 → ℝ) (g dt1 dt2 : ℝ)
+    (h1 : eps ≤ th2 w dt1 / 4) (h2 : eps ≤ th2 w dt2 / 4) (h12 : eps ≤ th2 w (dt1 + dt2) / 4) :
+    let x1 := rdd2.strapdown_ins_propagate.x1_vec x0 a w g dt1
+    let x2 := rdd2.strapdown_ins_propagate.x1_vec x1 a w g dt2
+    let x12 := rdd2.strapdown_ins_propagate.x1_vec x0 a w g (dt1 + dt2)
+    p0 x2 = p0 x12 ∧ v0 x2 = v0 x12 ∧ qmat (q0 x2) = qmat (q0 x12) := by
+  intro x1 x2 x12
+  have hw : nsq w ≠ 0 := by
+    intro h0
+    have : th2 w dt1 = 0 := by
+      rw [th2_eq]; have e : nsq (fun i => dt1 * w i) = dt1 ^ 2 * nsq w := by simp only [nsq]; ring
+      rw [e, h0, mul_zero]
+    have := eps_pos; linarith
+  obtain ⟨a1, b1, c1, _⟩ := exact_flow x0 a w g dt1 h1
+  obtain ⟨a2, b2, c2, _⟩ := exact_flow x1 a w g dt2 h2
+  obtain ⟨a3, b3, c3, _⟩ := exact_flow x0 a w g (dt1 + dt2) h12
+  obtain ⟨sR, sv, sp⟩ := flow_semigroup (qmat (q0 x0)) (p0 x0) (v0 x0) a w g dt1 dt2 hw
+  have hp1 : p0 x1 = pflow (qmat (q0 x0)) (p0 x0) (v0 x0) a w g dt1 := a1
+  have hv1 : v0 x1 = vflow (qmat (q0 x0)) (v0 x0) a w g dt1 := b1
+  have hR1 : qmat (q0 x1) = Rflow (qmat (q0 x0)) w dt1 := c1
+  refine ⟨?_, ?_, ?_⟩
+  · show p0 x2 = p0 x12
+    calc p0 x2 = pflow (qmat (q0 x1)) (p0 x1) (v0 x1) a w g dt2 := a2
+      _ = pflow (qmat (q0 x0)) (p0 x0) (v0 x0) a w g (dt1 + dt2) := by rw [hp1, hv1, hR1, ← sp]
+      _ = p0 x12 := a3.symm
+  · show v0 x2 = v0 x12
+    calc v0 x2 = vflow (qmat (q0 x1)) (v0 x1) a w g dt2 := b2
+      _ = vflow (qmat (q0 x0)) (v0 x0) a w g (dt1 + dt2) := by rw [hv1, hR1, ← sv]
+      _ = v0 x12 := b3.symm
+  · show qmat (q0 x2) = qmat (q0 x12)
+    calc qmat (q0 x2) = Rflow (qmat (q0 x1)) w dt2 := c2
+      _ = Rflow (qmat (q0 x0)) w (dt1 + dt2) := by rw [hR1, ← sR]
+      _ = qmat (q0 x12) := c3.symm
+
 end C08
